@@ -21,6 +21,7 @@ import (
 	"net"
 	"os"
 	"runtime/debug"
+	"strconv"
 	"sync"
 	"time"
 
@@ -44,14 +45,85 @@ import (
 
 // ---------------------------------------------------------------- payloads
 
+// The payload has, besides an id and a sized text, fields whose wire form does not mention
+// everything in every message: a map (each message carries only its own keys), a text and a slice
+// that are omitted when empty. Their content is a function of (id, shape variant v).
 type Req struct {
-	Message string `json:"message" msgpack:"message"`
-	ID      int    `json:"id" msgpack:"id"`
+	Message string         `json:"message" msgpack:"message"`
+	ID      int            `json:"id" msgpack:"id"`
+	Labels  map[string]int `json:"labels" msgpack:"labels"`
+	Note    string         `json:"note,omitempty" msgpack:"note,omitempty"`
+	Tags    []int          `json:"tags,omitempty" msgpack:"tags,omitempty"`
 }
 
 type Res struct {
-	Message string `json:"message" msgpack:"message"`
-	ID      int    `json:"id" msgpack:"id"`
+	Message string         `json:"message" msgpack:"message"`
+	ID      int            `json:"id" msgpack:"id"`
+	Labels  map[string]int `json:"labels" msgpack:"labels"`
+	Note    string         `json:"note,omitempty" msgpack:"note,omitempty"`
+	Tags    []int          `json:"tags,omitempty" msgpack:"tags,omitempty"`
+}
+
+const nVariants = 5
+
+// extras is the deterministic content of the map / note / slice of payload id in shape v.
+func extras(id, v int) (map[string]int, string, []int) {
+	switch v {
+	case 1:
+		return map[string]int{"k" + strconv.Itoa(id): id}, "n" + strconv.Itoa(id), []int{id}
+	case 2:
+		keys := [][]string{{"a", "b"}, {"b", "c"}, {"c"}}[id%3]
+		m := map[string]int{}
+		for i, k := range keys {
+			m[k] = id + i
+		}
+		return m, "", nil
+	case 3:
+		return map[string]int{}, "note " + strconv.Itoa(id%2), []int{1, 2, 3}
+	case 4:
+		return map[string]int{"a": id, "z": -id}, "", []int{id, id + 1}
+	}
+	return nil, "", nil
+}
+
+func sameExtras(l map[string]int, n string, t []int, v, id int) bool {
+	el, en, et := extras(id, v)
+	if n != en || len(l) != len(el) || len(t) != len(et) {
+		return false
+	}
+	for k, x := range el {
+		if y, ok := l[k]; !ok || y != x {
+			return false
+		}
+	}
+	for i := range et {
+		if t[i] != et[i] {
+			return false
+		}
+	}
+	return true
+}
+
+// grpc's generated test messages only have an id and a text: the other fields travel as JSON
+// inside the text
+type grpcBody struct {
+	M string         `json:"m"`
+	L map[string]int `json:"l"`
+	N string         `json:"n,omitempty"`
+	T []int          `json:"t,omitempty"`
+}
+
+func packBody(m string, l map[string]int, n string, t []int) string {
+	b, _ := json.Marshal(grpcBody{M: m, L: l, N: n, T: t})
+	return string(b)
+}
+
+func unpackBody(s string) grpcBody {
+	var b grpcBody
+	if err := json.Unmarshal([]byte(s), &b); err != nil {
+		return grpcBody{M: "!undecodable"}
+	}
+	return b
 }
 
 // filler is the deterministic content of a payload with the given id and size.
@@ -71,19 +143,21 @@ func filler(id, size int) string {
 type reqTr struct{}
 
 func (reqTr) Forward(_ context.Context, r Req) (*v1.Request, error) {
-	return &v1.Request{Id: int32(r.ID), Message: r.Message}, nil
+	return &v1.Request{Id: int32(r.ID), Message: packBody(r.Message, r.Labels, r.Note, r.Tags)}, nil
 }
 func (reqTr) Backward(_ context.Context, r *v1.Request) (Req, error) {
-	return Req{ID: int(r.Id), Message: r.Message}, nil
+	b := unpackBody(r.Message)
+	return Req{ID: int(r.Id), Message: b.M, Labels: b.L, Note: b.N, Tags: b.T}, nil
 }
 
 type resTr struct{}
 
 func (resTr) Forward(_ context.Context, r Res) (*v1.Response, error) {
-	return &v1.Response{Id: int32(r.ID), Message: r.Message}, nil
+	return &v1.Response{Id: int32(r.ID), Message: packBody(r.Message, r.Labels, r.Note, r.Tags)}, nil
 }
 func (resTr) Backward(_ context.Context, r *v1.Response) (Res, error) {
-	return Res{ID: int(r.Id), Message: r.Message}, nil
+	b := unpackBody(r.Message)
+	return Res{ID: int(r.Id), Message: b.M, Labels: b.L, Note: b.N, Tags: b.T}, nil
 }
 
 // ---------------------------------------------------------------- errors
@@ -220,6 +294,7 @@ type op struct {
 	A  string `json:"a"`  // send | close | recv | ret
 	P  int    `json:"p"`  // payload id
 	Z  int    `json:"z"`  // payload size
+	V  int    `json:"v"`  // payload shape variant (map / omitted fields)
 	E  int    `json:"e"`  // error kind (ret)
 	M  int    `json:"m"`  // message variant (ret)
 	In int    `json:"in"` // inner kind of a path error (ret)
@@ -240,7 +315,9 @@ type obs struct {
 	K   string `json:"k"` // ok | val | err
 	P   int    `json:"p,omitempty"`
 	Z   int    `json:"z,omitempty"`
-	Bad bool   `json:"bad,omitempty"` // payload content differs from filler(p,z)
+	V   int    `json:"v,omitempty"`   // shape variant whose content the received payload has
+	Bad bool   `json:"bad,omitempty"` // payload content is not that of any (p, z, v)
+	Mut bool   `json:"mut,omitempty"` // the payload changed after it was delivered
 	Cls int    `json:"cls,omitempty"`
 	Msg string `json:"msg,omitempty"`
 	Is  bool   `json:"is,omitempty"`  // x/errors.Is(received, sentinel of the kind the handler returned)
@@ -265,6 +342,8 @@ type run struct {
 	tc      tcase
 	mu      sync.Mutex
 	c, h    []obs
+	keptC   []kept
+	keptH   []kept
 	goC     chan int // op indices released to the client side
 	goH     chan int
 	done    chan int
@@ -308,12 +387,47 @@ func errObs(r *run, err error) obs {
 	return o
 }
 
-func valObs(id int, msg string) obs {
+type kept struct {
+	idx    int
+	id     int
+	msg    string
+	labels map[string]int
+	note   string
+	tags   []int
+}
+
+func valObs(id int, msg string, l map[string]int, n string, t []int) obs {
 	o := obs{K: "val", P: id, Z: len(msg)}
 	if msg != filler(id, len(msg)) {
 		o.Bad = true
 	}
+	found := false
+	for v := 0; v < nVariants; v++ {
+		if sameExtras(l, n, t, v, id) {
+			o.V, found = v, true
+			break
+		}
+	}
+	if !found {
+		o.Bad = true
+	}
 	return o
+}
+
+// recheck re-validates every delivered payload after the stream is over: a payload that no
+// longer has the content it was delivered with was changed behind the receiver's back.
+func recheck(obsl []obs, ks []kept) {
+	for _, k := range ks {
+		if k.idx >= len(obsl) {
+			continue
+		}
+		now := valObs(k.id, k.msg, k.labels, k.note, k.tags)
+		was := obsl[k.idx]
+		if now.Bad != was.Bad || now.V != was.V || now.Z != was.Z {
+			obsl[k.idx].Bad = true
+			obsl[k.idx].Mut = true
+		}
+	}
 }
 
 func (r *run) recover(where string) {
@@ -350,11 +464,13 @@ func handler(ctx context.Context, s freighter.ServerStream[Req, Res]) (err error
 				r.mu.Lock()
 				r.h = append(r.h, ob)
 			} else {
-				r.h = append(r.h, valObs(v.ID, v.Message))
+				r.keptH = append(r.keptH, kept{len(r.h), v.ID, v.Message, v.Labels, v.Note, v.Tags})
+				r.h = append(r.h, valObs(v.ID, v.Message, v.Labels, v.Note, v.Tags))
 			}
 			r.mu.Unlock()
 		case "send":
-			e := s.Send(Res{ID: o.P, Message: filler(o.P, o.Z)})
+			xl, xn, xt := extras(o.P, o.V)
+			e := s.Send(Res{ID: o.P, Message: filler(o.P, o.Z), Labels: xl, Note: xn, Tags: xt})
 			if e != nil {
 				ob := errObs(r, e)
 				r.mu.Lock()
@@ -415,11 +531,13 @@ func clientSide(r *run, cs freighter.ClientStream[Req, Res]) {
 					r.mu.Unlock()
 				} else {
 					r.mu.Lock()
-					r.c = append(r.c, valObs(v.ID, v.Message))
+					r.keptC = append(r.keptC, kept{len(r.c), v.ID, v.Message, v.Labels, v.Note, v.Tags})
+					r.c = append(r.c, valObs(v.ID, v.Message, v.Labels, v.Note, v.Tags))
 					r.mu.Unlock()
 				}
 			case "send":
-				e := cs.Send(Req{ID: o.P, Message: filler(o.P, o.Z)})
+				xl, xn, xt := extras(o.P, o.V)
+				e := cs.Send(Req{ID: o.P, Message: filler(o.P, o.Z), Labels: xl, Note: xn, Tags: xt})
 				if e != nil {
 					ob := errObs(r, e)
 					r.mu.Lock()
@@ -684,6 +802,8 @@ issue:
 	}
 	cancel()
 	r.mu.Lock()
+	recheck(r.c, r.keptC)
+	recheck(r.h, r.keptH)
 	res.C = append(res.C, r.c...)
 	res.H = append(res.H, r.h...)
 	if r.hErr != nil {
